@@ -77,18 +77,28 @@ contract(Contract(
 
 contract(Contract(
     target=N + "render_code_span",
-    props=["C04", "C12"],
+    props=["C04", "C01", "C12"],
     params={"element": "ref:CodeSpanEl"},
     self_cls="MarkdownNormalizer",
     setup=self_setup,
-    calls={"CodeSpanEl.children": Callee("attr", ret="str")},
-    types={"text": "str"},
+    calls={"CodeSpanEl.children": Callee("attr", ret="str"),
+           "re.findall": Callee("uf", ret="list[str]", sig=["pattern", "string"])},
+    types={"text": "str", "n": "int", "delim": "str"},
+    assumes=["re.findall('`+', text) is uninterpreted: that it yields exactly the backtick runs of the text is checked by the "
+             "function-level code-span sweep of the bounded layer"],
+    loops={0: Loop(inv={"shortest_so_far": "n >= 1 and all(implies(m >= 1, m in runs) for m in range(n))"}, decreases=None)},
     ensures={
-        # the span's text is copied verbatim between equal backtick delimiters (padded form for edge backticks); that the
-        # delimiter length differs from every backtick run inside is NOT proved: known finding C01-code-span-backticks
-        "text_verbatim": "result == '`' + element.children + '`' or result == '`` ' + element.children + ' ``'",
+        # the span's text is copied verbatim between two equal runs of n backticks (padded with one blank each side when the text
+        # starts or ends with a backtick), where n is the SHORTEST length that no backtick run of the text has: the span
+        # cannot end early when read back (C01 / C04), and the delimiter is not longer than needed
+        "text_verbatim": "result == '`' * n + element.children + '`' * n or result == '`' * n + ' ' + element.children + ' ' + '`' * n",
+        "delimiter_differs_from_every_inner_run": Clause("n >= 1 and not (n in runs)", props=["C01", "C04"]),
+        "delimiter_is_the_shortest_such": Clause("all(implies(m >= 1, m in runs) for m in range(n))", props=["C04"]),
     },
-    canaries=[('return f"`{element.children}`"', 'return f"`{element.children.strip()}`"', None, ["post[text_verbatim"])],
+    canaries=[('        return f"{delim}{text}{delim}"', '        return f"{delim}{text.strip()}{delim}"', None, ["post[text_verbatim"]),
+              ("        while n in runs:", "        while n + 1 in runs:", None, ["post[delimiter_differs", "inv-"]),
+              ("            n += 1\n", "            n += 2\n", None, ["inv-", "shortest"]),
+              ("        n = 1\n", "        n = 2\n", None, ["shortest", "inv-"])],
 ))
 
 contract(Contract(
